@@ -82,8 +82,26 @@ def _pts(v):
     return json.loads(v) if isinstance(v, str) else v
 
 
-def scenario_abstract(case, sc, late=None):
+def _abstract(case):
+    """the model as a vf.sdmodel abstract model; DSL-only cases may add elements that read the run specs"""
     a = c04.to_abstract(case["model"])
+    if case.get("time_builtins"):
+        a = dict(a)
+        a["constants"] = list(a["constants"]) + [{"name": "kdel", "value": 1.0}]
+        extra = [{"kind": "converter", "name": "tb_dt", "eq": ["bin", "*", ["dt"], ["num", 2.0]]},
+                 {"kind": "converter", "name": "tb_rs", "eq": ["bin", "+", ["starttime"], ["stoptime"]]},
+                 {"kind": "converter", "name": "tb_d", "eq": ["delay", "w", ["ref", "kdel"], None]}]
+        rate = ["ref", "tb_d"]
+        if case["model"]["dt_spec"].get("dt") in ("1", "0.5", "0.25"):
+            extra.append({"kind": "flow", "name": "tb_p", "eq": ["pulse", 3.0, 2.0, 1.0]})
+            rate = ["bin", "+", rate, ["ref", "tb_p"]]
+        a["aux"] = list(a["aux"]) + extra
+        a["stocks"] = list(a["stocks"]) + [{"name": "tb_s", "init": 0.0, "eq": rate}]
+    return a
+
+
+def scenario_abstract(case, sc, late=None):
+    a = _abstract(case)
     rs = merged_runspecs(sc, late)
     start = Decimal(str(rs["starttime"])) if "starttime" in rs else Decimal(a["start"])
     dt = Decimal(str(rs["dt"])) if "dt" in rs else Decimal(a["dt"])
@@ -105,7 +123,7 @@ def check_case(case):
     channel, flavour = cfg["channel"], cfg["flavour"]
     _uid[0] += 1
     sm = "smC07"
-    abstract0 = c04.to_abstract(case["model"])
+    abstract0 = _abstract(case)
     names = SM.element_names(abstract0)
     conf = {"set_scenario_monitor": False, "set_model_monitor": False}
     # reference per scenario
@@ -188,6 +206,22 @@ def check_case(case):
             b.register_scenario_manager({sm: mgr})
             b.register_scenarios(reg_sc, sm)
         # ---- obtain results ----------------------------------------------------
+        if case.get("reread") and channel in ("file", "file2"):
+            # the scenarios are changed in memory by a session, then read again from their (unchanged) files - by
+            # reset_scenario / reset_all_scenarios and by a second bptk on the same folder: the file values count
+            first = list(case["scenarios"])[0]
+            consts = [c["name"] for c in abstract0["constants"]]
+            b.begin_session(scenarios=[first], scenario_managers=[sm], equations=names,
+                            settings={sm: {first: {"constants": {nm: 99.0 for nm in consts}}}})
+            b.run_step()
+            b.end_session()
+            if case["reread"] == "reset_scenario":
+                b.reset_scenario(scenario_manager=sm, scenario=first)
+            elif case["reread"] == "reset_all":
+                b.reset_all_scenarios()
+            else:
+                b.destroy()
+                b = bptk(configuration=dict(conf))
         if case.get("prior_run") and channel not in ("dict", "file", "file2"):
             # the scenarios have been simulated before the settings arrive
             b.run_scenarios(scenarios=list(case["scenarios"]), scenario_managers=[sm], equations=names, return_format="dict")
@@ -379,6 +413,11 @@ def case_strategy(cfg):
                         lt["runspecs"] = {"stoptime": float(stop)}
                 late[scn] = lt
             case["late"] = late
+        if cfg["channel"] in ("file", "file2"):
+            case["reread"] = draw(st.sampled_from([None, "reset_scenario", "reset_all", "second-bptk"]))
+        if cfg["flavour"] == "dsl" and kind in ("runspecs", "mixed"):
+            # elements that read the run specs themselves: dt(), starttime(), stoptime(), delay and pulse
+            case["time_builtins"] = draw(st.booleans())
         return case
     return build()
 
@@ -390,8 +429,9 @@ def _body(ctx):
             ctx.discard(info["status"])
             return
         cfg = case["cfg"]
-        ctx.case({"cfg": cfg, "base": case["base"], "scenarios": case["scenarios"], "model": SM.sym_show(c04.to_abstract(case["model"]))},
-                 nontrivial=info["nontrivial"], labels=["channel:" + cfg["channel"], "kind:" + cfg["kind"], "level:" + cfg["level"], "flavour:" + cfg["flavour"]],
+        ctx.case({"cfg": cfg, "base": case["base"], "scenarios": case["scenarios"], "model": SM.sym_show(_abstract(case))},
+                 nontrivial=info["nontrivial"], labels=["channel:" + cfg["channel"], "kind:" + cfg["kind"], "level:" + cfg["level"], "flavour:" + cfg["flavour"]] +
+                 (["reads-run-specs"] if case.get("time_builtins") else []) + (["reread:" + case["reread"]] if case.get("reread") else []),
                  key=case)
         ctx.report(vs)
     return body
